@@ -176,8 +176,10 @@ fn dist_oracle(c: &DistCase) -> Verdict {
 pub struct FreshCase { pub ps: ParamSet, pub history: Vec<u8>, pub prng_seed: u8 }
 
 fn fresh_case(tier: Tier) -> BoxedStrategy<FreshCase> {
-    // N >= 16: below that the public-key mask u (ternary, 3^N values) and the error live in a space small enough for honest birthday collisions
-    let cfg = ParamCfg { schemes: vec![Scheme::BFV, Scheme::BGV, Scheme::CKKS], logn_lo: 4, logn_hi: tier.pick(6, 8), logn_small: 5, k_lo: 2, k_hi: 4, bits_lo: 30, bits_hi: 60, t_kind: TKind::Any, t_bits_lo: 4, t_bits_hi: 20,
+    // masks that are functions of a ternary polynomial (the public-key mask u - the error terms are rounded away by the switch
+    // down from the key level - and secret keys) have only 3^N values: they are compared for N >= 64 only (3^64 ~ 2^101; at
+    // N = 16, 3^16 ~ 4e7 and honest birthday collisions occur about once in fifty runs). Uniform masks and stored seeds always.
+    let cfg = ParamCfg { schemes: vec![Scheme::BFV, Scheme::BGV, Scheme::CKKS], logn_lo: 4, logn_hi: tier.pick(7, 8), logn_small: 6, k_lo: 2, k_hi: 4, bits_lo: 30, bits_hi: 60, t_kind: TKind::Any, t_bits_lo: 4, t_bits_hi: 20,
         need_keyswitching: true, allow_special_flag: false, always_expand: true };
     (cfg.strategy(), proptest::collection::vec(0u8..8, 2..50), any::<u8>()).prop_map(|(ps, history, prng_seed)| FreshCase { ps, history, prng_seed }).boxed()
 }
@@ -194,14 +196,14 @@ fn fresh_oracle(c: &FreshCase) -> Verdict {
     let seed_words = |ct: &Ciphertext| -> Vec<u64> { ct.poly(1)[1..9].to_vec() };
     for (i, h) in c.history.iter().enumerate() {
         let r: Result<(), String> = (|| { match h {
-            0 => { let ct = w.encryptor.encrypt_new(&plain); note(ct.poly(1).to_vec(), "public-key encryption")?; note(ct.poly(0).to_vec(), "public-key encryption c0") }
+            0 => { let ct = w.encryptor.encrypt_new(&plain); if n < 64 { return Ok(()); } note(ct.poly(1).to_vec(), "public-key encryption")?; note(ct.poly(0).to_vec(), "public-key encryption c0") }
             1 => { let mut ct = Ciphertext::new(); w.encryptor.encrypt_symmetric(&plain, &mut ct); note(ct.poly(1).to_vec(), "symmetric encryption") }
             2 => { let ct = w.encryptor.encrypt_symmetric_new(&plain); if ct.contains_seed() { note(seed_words(&ct), "seeded symmetric encryption (stored seed)") } else { note(ct.poly(1).to_vec(), "symmetric encryption") } }
-            3 => { let ct = w.encryptor.encrypt_zero_new(); note(ct.poly(1).to_vec(), "zero encryption") }
+            3 => { let ct = w.encryptor.encrypt_zero_new(); if n < 64 { return Ok(()); } note(ct.poly(1).to_vec(), "zero encryption") }
             4 => { let pk = w.keygen.create_public_key(false); note(pk.as_ciphertext().poly(1).to_vec(), "public key") }
             5 => { let rk = w.keygen.create_relin_keys(i % 2 == 0); for kv in rk.as_kswitch_keys().keys() { for pk in kv { let ct = pk.as_ciphertext(); if ct.contains_seed() { note(seed_words(ct), "relinearization key (stored seed)")?; } else { note(ct.poly(1).to_vec(), "relinearization key")?; } } } Ok(()) }
             6 => { let gk = w.keygen.create_galois_keys_from_elts(&[3, 2 * n - 1], i % 2 == 1); for kv in gk.as_kswitch_keys().keys() { for pk in kv { let ct = pk.as_ciphertext(); if ct.contains_seed() { note(seed_words(ct), "Galois key (stored seed)")?; } else { note(ct.poly(1).to_vec(), "Galois key")?; } } } Ok(()) }
-            _ => { let kg = KeyGenerator::new(w.context.clone()); note(kg.secret_key().data().clone(), "secret key") }
+            _ => { let kg = KeyGenerator::new(w.context.clone()); if n < 64 { return Ok(()); } note(kg.secret_key().data().clone(), "secret key") }
         } })();
         if let Err(m) = r { return fail(format!("step {i} of {:?}: {m}", c.history)); }
     }
@@ -244,17 +246,87 @@ fn fresh_oracle(c: &FreshCase) -> Verdict {
     Verdict::Pass(Info::new(c.history.len() >= 10).evals(count as u64 + 4).label(format!("{:?}", c.ps.scheme)).label_if(c.history.len() >= 10, "history >= 10"))
 }
 
+// ---------------------------------------------------------------------------------------------
+// seed-compressed objects expand to exactly the stream their stored seed defines, at every degree (the seed may spill over
+// the first RNS component when N < 9), and key containers keep their shape
+#[derive(Clone, Debug, serde::Serialize, serde::Deserialize)]
+pub struct ExpandCase { pub ps: ParamSet, pub which: u8, pub sel: u16 }
+
+fn expand_case(tier: Tier) -> BoxedStrategy<ExpandCase> {
+    let cfg = ParamCfg { schemes: vec![Scheme::BFV, Scheme::BGV, Scheme::CKKS], logn_lo: 1, logn_hi: tier.pick(6, 9), logn_small: 3, k_lo: 2, k_hi: 7, bits_lo: 25, bits_hi: 60, t_kind: TKind::Any, t_bits_lo: 4, t_bits_hi: 20,
+        need_keyswitching: true, allow_special_flag: false, always_expand: true };
+    (cfg.strategy(), any::<u8>(), any::<u16>()).prop_map(|(ps, which, sel)| ExpandCase { ps, which, sel }).boxed()
+}
+
+/// the polynomial the stored seed of a seed-compressed two-component object defines: BlakeRNG(seed) -> uniform at the object's level
+fn expected_mask(ctx: &HeContext, ct: &Ciphertext) -> Option<Vec<u64>> {
+    let c1 = ct.poly(1);
+    if !ct.contains_seed() || c1.len() < 9 { return None; }
+    let mut seed = [0u8; 64];
+    for (i, w) in c1[1..9].iter().enumerate() { seed[8 * i..8 * i + 8].copy_from_slice(&w.to_le_bytes()); }
+    let cd = ctx.get_context_data(ct.parms_id())?;
+    let mut out = vec![0u64; c1.len()];
+    sample::uniform(&mut rng(seed), cd.parms(), &mut out);
+    Some(out)
+}
+
+fn expand_oracle(c: &ExpandCase) -> Verdict {
+    let w = match World::new(&c.ps) { Ok(w) => w, Err(e) => return fail_key("harness/params", e) };
+    let n = w.n;
+    let plain = match w.ps.scheme { Scheme::CKKS => CKKSEncoder::new(w.context.clone()).encode_f64_single_new(1.0, None, 256.0), _ => BatchEncoder::new(w.context.clone()).encode_polynomial_new(&[1]) };
+    let mut seeded = 0u64; let mut spill = false;
+    let mut check_ct = |ct: &Ciphertext, what: &str| -> Result<(), String> {
+        if let Some(want) = expected_mask(&w.context, ct) {
+            seeded += 1; if n < 9 { spill = true; }
+            let c0 = ct.poly(0).to_vec();
+            let e = catch(|| ct.clone().expand_seed(&w.context)).map_err(|p| format!("{what}: expand_seed panicked: {p}"))?;
+            if e.contains_seed() { return Err(format!("{what}: still seed-compressed after expansion")); }
+            if e.poly(1) != &want[..] { return Err(format!("{what}: the expanded second polynomial is not the uniform polynomial defined by the stored seed (N={n}, {} components)", want.len() / n)); }
+            if e.poly(0) != &c0[..] || e.parms_id() != ct.parms_id() || e.is_ntt_form() != ct.is_ntt_form() || e.size() != 2 { return Err(format!("{what}: expansion changed the first polynomial or the metadata")); }
+        }
+        Ok(())
+    };
+    let keys_ok = |k: &KSwitchKeys, what: &str, check_ct: &mut dyn FnMut(&Ciphertext, &str) -> Result<(), String>| -> Result<(), String> {
+        let shape: Vec<usize> = k.keys().iter().map(|v| v.len()).collect();
+        for v in k.keys() { for pk in v { check_ct(pk.as_ciphertext(), what)?; } }
+        if !k.contains_seed() { return Ok(()); } // (nothing stored: the member polynomials are too small to hold a seed; expanding is refused by contract)
+        let e = catch(|| k.clone().expand_seed(&w.context)).map_err(|p| format!("{what}: expand_seed panicked: {p}"))?;
+        let shape2: Vec<usize> = e.keys().iter().map(|v| v.len()).collect();
+        if shape != shape2 { return Err(format!("{what}: expansion changed the key table (entries per slot {shape:?} -> {shape2:?})")); }
+        for (v, v2) in k.keys().iter().zip(e.keys().iter()) { for (a, b) in v.iter().zip(v2.iter()) {
+            if let Some(want) = expected_mask(&w.context, a.as_ciphertext()) { if b.as_ciphertext().poly(1) != &want[..] || b.as_ciphertext().poly(0) != a.as_ciphertext().poly(0) { return Err(format!("{what}: a member key of the expanded table is not the expansion of the member at the same place")); } }
+        } }
+        Ok(())
+    };
+    let r: Result<(), String> = (|| {
+        match c.which % 6 {
+            0 => check_ct(&w.encryptor.encrypt_symmetric_new(&plain), "seeded symmetric encryption"),
+            1 => { let lvl = pick_idx(c.sel, w.levels.len()); check_ct(&w.encryptor.encrypt_zero_symmetric_new_at(&w.levels[lvl].parms_id), &format!("seeded zero encryption at level {lvl}")) }
+            2 => check_ct(w.keygen.create_public_key(true).as_ciphertext(), "seeded public key"),
+            3 => keys_ok(w.keygen.create_relin_keys(true).as_kswitch_keys(), "seeded relinearization keys", &mut check_ct),
+            4 => { let elts: Vec<usize> = if n >= 2 { vec![3 % (2 * n) | 1, 2 * n - 1, (2 * (c.sel as usize % n) + 1) % (2 * n)] } else { vec![1] };
+                   let mut e2 = elts.clone(); e2.sort(); e2.dedup(); e2.retain(|x| *x != 1);
+                   if e2.is_empty() { return Ok(()); }
+                   keys_ok(w.keygen.create_galois_keys_from_elts(&e2, true).as_kswitch_keys(), "seeded Galois keys", &mut check_ct) }
+            _ => { let other = KeyGenerator::new(w.context.clone()); keys_ok(&w.keygen.create_keyswitching_key(other.secret_key(), true), "seeded key-switching key", &mut check_ct) }
+        }
+    })();
+    if let Err(m) = r { return fail(format!("{:?} N={n} moduli {:?}: {m}", c.ps.scheme, c.ps.moduli)); }
+    Verdict::Pass(Info::new(seeded > 0).evals(seeded.max(1)).label(format!("{:?}", c.ps.scheme)).label_if(spill, "seed spills over the first component (N<9)").label_if(seeded == 0, "no seed stored (object too small)"))
+}
+
 pub fn def() -> PropertyDef {
     PropertyDef {
         id: "C16",
         level: "exploration",
-        rule: "stream: 64-byte seeds (all-zero, all-ones, single-bit, single-zero-bit, random) x chunk lists of 1..9000-byte reads crossing several 4096-byte refills x interleaved next_u32 / next_u64 / fill_bytes sequences, plus 1 MiB (thorough 16 MiB) per seed kind for the no-repetition clause; metamorphic oracles: chunked reads = one bulk read = byte-at-a-time reads, same seed + same calls = same output, one-bit-different seeds differ, no repeated aligned 32-byte window, consecutive blocks differ (agreement with an independent blake3 XOF recomputation is recorded as information only). samples: ternary / error / uniform samplers on 1..6 primes of 2..60 bits (incl. primes below 43): one small signed value per coefficient consistent across components, |e| <= 21, uniform below each modulus; distribution tests on 2^20 draws at p = 1e-9 with confirmation under a second seed. freshness (hook H2 removed): histories of 2..50 encryptions / key generations: all masks and stored seeds pairwise distinct; identical explicit generator state gives identical masks; seeded objects expand identically twice and in an independently built context. non-trivial: >= 2 refills with a non-aligned boundary / >= 2 primes / history >= 10.",
+        rule: "stream: 64-byte seeds (all-zero, all-ones, single-bit, single-zero-bit, random) x chunk lists of 1..9000-byte reads crossing several 4096-byte refills x interleaved next_u32 / next_u64 / fill_bytes sequences, plus 1 MiB (thorough 16 MiB) per seed kind for the no-repetition clause; metamorphic oracles: chunked reads = one bulk read = byte-at-a-time reads, same seed + same calls = same output, one-bit-different seeds differ, no repeated aligned 32-byte window, consecutive blocks differ (agreement with an independent blake3 XOF recomputation is recorded as information only). samples: ternary / error / uniform samplers on 1..6 primes of 2..60 bits (incl. primes below 43): one small signed value per coefficient consistent across components, |e| <= 21, uniform below each modulus; distribution tests on 2^20 draws at p = 1e-9 with confirmation under a second seed. freshness (hook H2 removed): histories of 2..50 encryptions / key generations: all uniform masks and stored seeds pairwise distinct, masks that are functions of a ternary polynomial (public-key encryptions, secret keys) for N >= 64; identical explicit generator state gives identical masks; seeded objects expand identically twice and in an independently built context. expansion: for N = 2..64 (thorough 512) and 2..7 primes every seed-compressed ciphertext, public key, relinearization / Galois / key-switching key expands to exactly uniform(BlakeRNG(stored seed)) at its level, first polynomial and metadata unchanged, key tables keep their slot structure. non-trivial: >= 2 refills with a non-aligned boundary / >= 2 primes / history >= 10 / a seed was stored.",
         assumptions: vec!["statistical thresholds: a false alarm needs p < 1e-9 and p < 1e-6 under a second seed; the generators are seeded from the case, so the verdict is deterministic", "the exact PRF is not asserted (information only)"],
         subs: vec![
             Sub::prop("stream_chunking", 100_000, 600_000, 0.2, |_| stream_case(), stream_oracle),
             Sub::enumerate("long_streams", long_stream_cases, stream_oracle),
             Sub::prop("sampler_wellformedness", 200_000, 1_200_000, 0.3, sample_case, sample_oracle),
             Sub::enumerate("sampler_distributions", |t| (0..t.pick(8u8, 64u8)).map(|s| DistCase { seed: s }).collect(), dist_oracle),
+            Sub::prop("seed_expansion", 40_000, 300_000, 0.3, expand_case, expand_oracle),
             Sub::prop("freshness_histories", 30_000, 200_000, 0.3, fresh_case, fresh_oracle),
         ],
     }
